@@ -9,7 +9,7 @@ C={
   "For every explored program's last commit, every crash image the persistence model allows (per sync epoch: subsets of unsynced operations, sector tearing, torn meta) is recovered by the real code under two freelist configurations and must be the last acknowledged or (iff its meta is complete) the in-flight state, consistent and writable.",
   "Persistence model: fdatasync/fsync is a barrier, 512-byte sectors persist independently afterwards; not a model of a specific file system; NoSync and init-crash excluded as documented."),
 "C05":("model_checking","exhaustive enumeration of cursor call sequences over all deletion subsets of fixed bucket shapes on the real code, sorted-list oracle","DESIGN.md 4/C05",
-  "Every sequence of 3 (quick) / 4 (thorough) cursor calls from First/Last/Next/Prev/Seek(every key and gap) on every bucket shape x every subset of keys deleted (and every single gap put) in the same write tx, and in read transactions, equals a sorted list with a position; every call returns (a hang kills the worker and is reported).",
+  "Every sequence of 3 (quick) / 4 (thorough) cursor calls from First/Last/Next/Prev/Seek(every key and gap) on every bucket shape x every subset of keys deleted (and every single gap put) in the same write tx, and in read transactions, equals a sorted list with a position; cursors created and positioned BEFORE the deletes/puts of a case and repositioned afterwards (valid reuse: every [R] and [R,X] with R a repositioning call, from every earlier position) behave like fresh ones; every call returns (a hang kills the worker and is reported).",
   "Shapes are fixed (6 shapes x 2 page sizes, tree depth of each asserted when built; the three-level one has 12 keys = 4096 deletion subsets); a per-call watchdog in the worker decides about hangs; cursor use after mutation without repositioning is excluded as documented."),
 "C08":("fault_enumeration","explicit-state BFS over API programs with one injected failure at every I/O call index of every commit, run under the controlled scheduler for deadlock detection","DESIGN.md 4/C08",
   "For every explored state with an open write tx the commit is re-executed once per I/O call and failure shape; afterwards error returned, pre-state (or, after a complete meta write, the post-state in memory and on disk alike) visible to fresh and held readers, accounting exact, no page of a visible version allocatable, follow-up transactions and reopen work, no deadlock. Known finding F6 reported as such.",
@@ -60,7 +60,7 @@ C={
   "After every commit, rollback and reopen of every explored program the independent decoder must account for every page exactly once and Stats/Tx.Page/Tx.Check must agree; exhaustive within the operation bound; known finding F5 is reported as such.",
   "Trusted: boltfmt (cross-validated three ways on every state); bounded alphabets."),
 "C10":("model_checking","explicit-state BFS over reader/writer event orders on the real code, allocator state inspected at every writer begin and commit","DESIGN.md 4/C10",
-  "Every order of reader open/close, writer begin/commit/rollback and reopen within the bound; at each writer begin no allocatable page belongs to a visible version and nothing stays pending without readers; after commits only that commit's releases are withheld.",
+  "Every order of reader open/close, writer begin/commit/rollback and reopen within the bound; at each writer begin no allocatable page belongs to a visible version and nothing stays pending without readers; after commits only that commit's releases are withheld; after every single I/O failure of every commit (readers held across) no page of a visible version is allocatable.",
   "Finite horizon only for the no-unbounded-growth clause; page sets from boltfmt; freelist state through the tag-guarded accessor."),
 "C12":("model_checking","explicit-state BFS over API programs; every produced file decoded by an independent version-2 reader and compared with model and API","DESIGN.md 4/C12",
   "Every file at every transaction boundary of the explorations (all configurations/page sizes) is decoded by a reader written only from the published layout and must equal the reference model and the API dump; meta slots, parity, checksum, flags checked; backups and files after failed commits are decoded too; a golden corpus written by the pinned build must still open with its recorded content; hand-encoded version-2 files with freelists around the 0xFFFF count boundary must open with exactly the listed ids free and decode again after a commit.",
